@@ -458,6 +458,10 @@ func scheduleOf(res *sched.Result) []string {
 	}
 	var s []string
 	for k := 1; k <= res.Steps; k++ {
+		if to[k] == "" || from[k] == to[k] {
+			s = append(s, fmt.Sprintf("step %d: t%d: %s", k, who[k], from[k]))
+			continue
+		}
 		s = append(s, fmt.Sprintf("step %d: t%d runs from %s to %s", k, who[k], from[k], to[k]))
 	}
 	return s
@@ -479,6 +483,8 @@ func kindName(e sched.Event) string {
 		return fmt.Sprintf("poolget(p%d,have=%d)->%d", e.Obj, e.A, e.B)
 	case simsync.KPoolPut:
 		return fmt.Sprintf("poolput(p%d)->keep=%d", e.Obj, e.B)
+	case sched.KAnnounce:
+		return fmt.Sprintf("lock(m%d) called: pending, readers hold it", e.Obj)
 	case sched.KStart:
 		return "start"
 	case sched.KDone:
